@@ -297,7 +297,8 @@ def run(ctx, only=None):
     if unmet:
         ctx.cap(f'{unmet} container sites did not show all orders within {max_seeds} seeds')
     if not only and len(cov) < 10:
-        raise HarnessError(f'C10: only {len(cov)} unordered-container sites observed; inputs are not order-hostile enough')
+        # the container dump reads model internals; if they were renamed the byte comparison still stands, the order-coverage claim does not
+        ctx.cap(f'only {len(cov)} unordered-container sites could be observed on this tree: order coverage not established')
     ctx.sample(dict(input='resources', perturbation=dict(seed=base_seed + 1), note='fresh process, PYTHONHASHSEED varied'))
     ctx.sample(dict(input='baseline', perturbation=dict(cwd='deep', malloc='malloc', env_pad=777)))
     ctx.extra['bound'] = f'{len(ins)} requests; seeds until order coverage (cap {max_seeds}); cwd/allocator/env/clock perturbations'
